@@ -384,9 +384,9 @@ Repoll ==
                  wokenL, started, final, nfire, nstale, nspur, ninfire, seen, conc, quiesced>>
 
 \* end of the run (the harness writes "end"); nothing happens afterwards
-Finish ==
+Finish ==          \* (the monitors close their ledgers at the harness' `end` marker, which is not part of the recorded history)
   /\ pc = "dropped" /\ pc' = "end"
-  /\ Emit(<<>>)
+  /\ m' = MonStep(m, [e |-> "end"]) /\ hist' = hist
   /\ UNCHANGED <<cfg, st, cnt, consumed, out, bits, count, parent, idx, ans, pend, polls, handed, firedL,
                  gen, wokenL, started, final, nfire, nstale, nspur, ninfire, seen, conc, quiesced>>
 
